@@ -540,6 +540,13 @@ func (s *seedInfo) mutate(rng *rand.Rand) ([]patch, int, string) {
 						"CREATE INDEX zi ON zz(a+1, lower(b))",
 						"CREATE UNIQUE INDEX zi ON zz(a) WHERE",
 						"SELECT * FROM zz",
+						// names that are the same only under a folding the reader does not use everywhere
+						"CREATE TABLE zz(\"é\", b, PRIMARY KEY(\"É\"))",
+						"CREATE TABLE zz(é, b, PRIMARY KEY(É)) WITHOUT ROWID",
+						"CREATE TABLE zz(k, b, PRIMARY KEY(\u212a)) WITHOUT ROWID",
+						"CREATE TABLE zz(s, UNIQUE(\u017f), PRIMARY KEY(S))",
+						"CREATE TABLE zz(a, b, UNIQUE(A, B), PRIMARY KEY(\u0131))",
+						"CREATE INDEX zi ON zz(\u212a, É)",
 					}
 					def := []byte(defs[rng.Intn(len(defs))])
 					b = make([]byte, n)
